@@ -320,7 +320,7 @@ impl SubCheck for Routing {
 		let rt = rt();
 		crate::panics::clear_local();
 		rt.block_on(async {
-			let mut w = World::new(ClientCfg { id_kind: case.id_kind, mw_last: case.send_yields == 3, ..ClientCfg::default() });
+			let mut w = World::new(ClientCfg { id_kind: case.id_kind, mw_last: case.send_yields == 3, ws_builder: case.send_yields >= 2, ..ClientCfg::default() });
 			if case.send_yields == 3 {
 				obs.class("client-built-through-set_rpc_middleware");
 			}
